@@ -2,7 +2,7 @@
 from datetime import timedelta
 
 from .. import hooks
-from ..gen import big_n, canon, mk_event, rand_grid, td_us
+from ..gen import big_n, canon, exact, mk_event, rand_grid, td_us
 from ..model import norm, pairwise_disjoint, subset, subtract
 from . import _tx
 from ._tx import exc_viol, is_event_list, iv, snap, tmod, unmodified
@@ -50,15 +50,15 @@ def post_flood(old, oldkw, result, exc, after, afterkw):
         v.append(("flood-nonpositive-output", f"{out_iv[:8]}"))
     if not pairwise_disjoint(out_iv):
         v.append(("flood-output-overlaps", f"in={in_iv[:8]} out={sorted(out_iv)[:8]} pulse_us={pu}"))
-    labels = {canon(e.data) for e in events}
+    labels = {exact(e.data) for e in events}
     for lab in labels:
-        cin = norm(iv(e) for e in events if canon(e.data) == lab)
-        cout = norm(iv(r) for r in result if canon(r.data) == lab)
+        cin = norm(iv(e) for e in events if exact(e.data) == lab)
+        cout = norm(iv(r) for r in result if exact(r.data) == lab)
         if not subset(cin, cout):
             v.append(("flood-label-lost-time", f"label={lab} in={cin[:6]} out={cout[:6]} all_in={in_iv[:8]} pulse_us={pu}"))
             break
-    if {canon(r.data) for r in result} - labels:
-        v.append(("flood-new-label", f"{ {canon(r.data) for r in result} - labels}"))
+    if {exact(r.data) for r in result} - labels:
+        v.append(("flood-new-label", f"{ {exact(r.data) for r in result} - labels}"))
     short = norm((a[1], b[0]) for a, b in zip(in_iv, in_iv[1:]) if 0 < b[0] - a[1] <= pu)
     new = subtract(out_iv, in_iv)
     if new != short:
@@ -91,7 +91,8 @@ def teardown(ctx):
         mon.uninstall()
 
 
-_DATA = [{"label": "a"}, {"label": "b"}, {"label": "c"}, {}]
+_DATA = [{"label": "a"}, {"label": "b"}, {"label": "c"}, {}, {"label": "a", "cursor": {"$tuple": [12, 40]}},
+         {"label": "a", "cursor": [12, 40]}, {"size": {"wh": {"$tuple": [80, 24]}}, "hist": [{"$tuple": ["a", 1]}]}]
 
 
 def gen_case(rng, ctx):
